@@ -105,6 +105,29 @@ def run(ck, ctx):
         ck.ob("T-CASE-LINE", "Parser.check_new_statement_start: <line>.upper().startswith(key)", K._normalised(c.func.value),
               "new-statement words must be recognised in any case", f.loc(c))
     ck.floor("T-CASE-LINE", 4)
+    # the statement-level words are exactly the ones the property names, and they are matched as whole words: any further word
+    # (or a prefix match) makes an ordinary continuation line - a column called update_ts, created_idx ... - end or drop a statement
+    STARTERS, SKIPPED = {"ALTER", "CREATE", "DROP", "SET"}, {"GO", "USE", "INSERT", "GRANT", "DELETE"}
+    words = []
+    for n in ast.walk(f.node):
+        if isinstance(n, ast.Constant) and isinstance(n.value, str) and n.value.strip().isalpha() and n.value.strip().isupper():
+            words.append(n.value)
+        if isinstance(n, ast.Name) and n.id in f.module.assigns and isinstance(f.module.assigns[n.id], (ast.List, ast.Tuple)):
+            words += [x.value for x in f.module.assigns[n.id].elts if isinstance(x, ast.Constant) and isinstance(x.value, str)]
+    if not words:
+        raise AnalysisError("anchor vanished: the new-statement words of check_new_statement_start")
+    for wd in sorted(set(words)):
+        ck.ob("T-LINE.words", f"new-statement word {wd!r}", wd.strip() in STARTERS and wd != wd.rstrip(),
+              "must be one of CREATE / ALTER / DROP / SET followed by a blank (whole-word match on the line start)", f.loc())
+    import re as _re
+    for n in ast.walk(init.node):
+        if isinstance(n, ast.Assign) and isinstance(n.value, ast.Call) and ast.unparse(n.value.func) == "re.compile" \
+                and any(access_path(t) == "self.skip_regex" for t in n.targets if isinstance(t, ast.Attribute)):
+            pat = n.value.args[0].value if n.value.args and isinstance(n.value.args[0], ast.Constant) else ""
+            mt = _re.fullmatch(r"\^\(([A-Za-z|]+)\)\\b", pat)
+            alts = set(mt.group(1).split("|")) if mt else None
+            ck.ob("T-LINE.words", "skipped line starts are exactly GO / USE / INSERT / GRANT / DELETE as whole words", alts is not None and alts <= SKIPPED,
+                  f"pattern {pat!r}", init.loc(n))
     ck.assumptions += ["words are separated as pre_process_data intends; whitespace amount / kind, glued separators, CRLF, blank lines and "
                        "line-break positions are decided by regexes and split() over the run-time text (L1) and are NOT decided here",
                        "statement assembly by lines (check_new_statement_start on run-time text) is declined"]
